@@ -183,6 +183,12 @@ def judgeLine (ws : List String) : String :=
   | ["abort"] => "reject abort"          -- the process running the scenario was aborted
   | ["hang"] => "reject hang"
   | "panic" :: _ => "reject panic"
+  | ["refail", a, b, c] =>
+    -- failed start observed by the spawner while the failed actor is still being torn down / immediate respawn
+    -- under the same name accepted / it ran (`name_free_when_start_failure_observed`, `name_free_after_drop`)
+    if [a, b, c].all (fun f => f = "0" || f = "1") then
+      verdict ([a, b, c].all (· = "1")) "name-not-released"
+    else "bad-op"
   | ["overlap", a, b, c, d, e] =>
     -- second spawn under a name still being started: refused / name hidden while starting / visible once
     -- started / resolves to the first actor / free after both are gone (`at_most_one_actor_per_name`,
